@@ -40,7 +40,12 @@ impl FixtureDatabase {
             .entry(file_path.clone())
             .or_default()
             .clone();
+        #[cfg(pytest_language_server_verif)]
+        super::verif_hooks::file_lock_event(std::sync::Arc::as_ptr(&file_lock) as usize, true);
         let _file_guard = file_lock.lock().unwrap_or_else(|e| e.into_inner());
+        #[cfg(pytest_language_server_verif)]
+        let _verif_release =
+            super::verif_hooks::ReleaseOnDrop(std::sync::Arc::as_ptr(&file_lock) as usize);
 
         // The scan path assumes nothing is known about the file yet. If it was analyzed
         // already (an open editor buffer is newer than the content on disk), keep that
